@@ -8,6 +8,7 @@ recurrences, (b) op-by-op reference with raw optax transformations for the
 adaptive optimizers; metamorphic relations (permutation, backend, empty-client
 removal, all-empty cohort, per-client key decomposition).
 """
+import collections
 import functools
 
 import numpy as np
@@ -204,6 +205,12 @@ def ref_grad(params, batch):
   return {'w': 2.0 * (r @ x) / n, 'b': np.float64(2.0 * r.sum() / n)}
 
 
+def _row_keys(batch):
+  x = np.asarray(batch['x'], np.float64)
+  y = np.asarray(batch['y'], np.float64)
+  return [tuple(x[r].tolist()) + (float(y[r]),) for r in range(x.shape[0])]
+
+
 def documented_steps(n, hp):
   """Number of batches ShuffleRepeatBatchHParams documents for N examples."""
   b, e, t, drop = hp['batch_size'], hp['num_epochs'], hp['num_steps'], hp['drop_remainder']
@@ -246,13 +253,27 @@ class Reference:
       p = dict(self.params)
       s = opt.init(p)
       nsteps = 0
+      stream = []
       for batch in ds.shuffle_repeat_batch(hp):
         g = self.grad(p, batch)
         s, p = opt.apply(g, s, p)
         self._track(p)
         nsteps += 1
+        stream.extend(_row_keys(batch))
       self.steps[i] = nsteps
       n = len(ds)
+      # (same reason as for the step count below: the stream the reference reads
+      # is the implementation's own, so what the hparams document about it --
+      # shuffle, repeat, batch: every pass over the data uses every example
+      # once before any example is used again -- is re-checked here)
+      own = collections.Counter(_row_keys(ds.all_examples())) if n else collections.Counter()
+      for at in range(0, len(stream), max(n, 1)):
+        window = collections.Counter(stream[at:at + n])
+        full = at + n <= len(stream)
+        require(window == own if full else not (window - own),
+                'client_batches_not_passes_over_its_examples',
+                lambda: f'client of {n} examples, hparams {self.case["hparams"]}: examples '
+                        f'{at}..{at + n} of its batch stream are not one pass over its data')
       want_steps = documented_steps(n, self.case['hparams'])
       if want_steps is not None:
         # (the stream is C04's property; its length is re-derived here from the
@@ -526,7 +547,7 @@ def case_strategy(draw, tier, relation=False):
     for r in range(n):
       rows[r * (d + 1) + d] *= draw(st.sampled_from([1, 2, 4]))
     pool.append({'id': (b'c%d' % i + (b'\x00' if i % 2 else b'')).hex(), 'rows': rows})
-  bs = draw(st.integers(1, 5))
+  bs = draw(st.sampled_from([1, 2, 3, 4, 5, 1, 2, 3, 4, 5, 8]))
   num_epochs = draw(st.sampled_from([None, 1, 1, 2, 3]))
   num_steps = draw(st.sampled_from([None, None, 0, 1, 2, 5]))
   if num_epochs is None and num_steps is None:
